@@ -28,17 +28,17 @@ type ChainCase struct {
 }
 
 type chainCall struct {
-	idx     int
-	serial  uint64
-	flags   uint64
-	key     string // the reference the call was made on
-	parent  *chainCall
-	field   int
-	client  int // index of the client used (direct calls)
-	ans     *capnp.Answer
-	rel     capnp.ReleaseFunc
-	sent    chan struct{}
-	opened  bool
+	idx    int
+	serial uint64
+	flags  uint64
+	key    string // the reference the call was made on
+	parent *chainCall
+	field  int
+	client int // index of the client used (direct calls)
+	ans    *capnp.Answer
+	rel    capnp.ReleaseFunc
+	sent   chan struct{}
+	opened bool
 }
 
 type chainClient struct {
@@ -111,7 +111,9 @@ func runChains(c ChainCase) (pbt.Result, error) {
 			if cl.parent != nil {
 				cc.parent, cc.field = cl.parent, cl.field
 			}
-			issue(cc, func(ctx context.Context, s capnp.Send) (*capnp.Answer, capnp.ReleaseFunc) { return cl.c.SendCall(ctx, s) })
+			issue(cc, func(ctx context.Context, s capnp.Send) (*capnp.Answer, capnp.ReleaseFunc) {
+				return cl.c.SendCall(ctx, s)
+			})
 		case "pipe":
 			if len(calls) == 0 {
 				continue
@@ -283,8 +285,8 @@ var chainSkeletons = map[string][]ChainOp{
 
 var _ = pbt.Register(pbt.Spec[ChainCase]{
 	Property: "C12", Name: "pipeline-chains",
-	Rule:     "scripts of 3-20 ops over server.Server objects that return further objects: calls on the root object or on capabilities taken from results, calls pipelined on any earlier call's answer (first- and second-level, pointer 0 or 1), behaviours {return at once, wait at a gate after acknowledging, wait at a gate WITHOUT acknowledging (the object stays busy), fail} x {no capability, a fresh object, two different fresh objects, the same object twice}, gate openings; two skeletons (second-level pipelining behind a held call; an answer's queue replayed while its target is busy, with a further pipelined call arriving) are interleaved with drawn ops in half of the cases. Calls are made one after another from one goroutine; a Send the server keeps waiting is left pending and only gates are opened until it returns. Oracle: every call reaches exactly the object its reference denotes (or fails if the answer holds no capability there), exactly once; it resolves with its own results / its own error; calls made on one reference (root, or pointer f of call k's results - through the answer's pipeline or a client taken from the results) arrive in the order they were made; every Send and answer completes once all gates are open. Non-trivial: a second-level pipelined call or a Send that was kept waiting.",
-	Quick:    1500, Thorough: 20000,
+	Rule:  "scripts of 3-20 ops over server.Server objects that return further objects: calls on the root object or on capabilities taken from results, calls pipelined on any earlier call's answer (first- and second-level, pointer 0 or 1), behaviours {return at once, wait at a gate after acknowledging, wait at a gate WITHOUT acknowledging (the object stays busy), fail} x {no capability, a fresh object, two different fresh objects, the same object twice}, gate openings; two skeletons (second-level pipelining behind a held call; an answer's queue replayed while its target is busy, with a further pipelined call arriving) are interleaved with drawn ops in half of the cases. Calls are made one after another from one goroutine; a Send the server keeps waiting is left pending and only gates are opened until it returns. Oracle: every call reaches exactly the object its reference denotes (or fails if the answer holds no capability there), exactly once; it resolves with its own results / its own error; calls made on one reference (root, or pointer f of call k's results - through the answer's pipeline or a client taken from the results) arrive in the order they were made; every Send and answer completes once all gates are open. Non-trivial: a second-level pipelined call or a Send that was kept waiting.",
+	Quick: 1500, Thorough: 20000,
 	Gen: func(t *rapid.T) ChainCase {
 		var c ChainCase
 		rnd := func() ChainOp {
